@@ -368,13 +368,19 @@ class VmControlData(TlbScheme):
         else:
             builder.store_bit_int(0)
 
-        if value.stack:
+        stack = getattr(value, 'stack', None)
+        if stack is not None:
             builder.store_bit_int(1)
-            builder.store_cell(value.stack)
+            if not isinstance(stack, Cell):  # deserialize() hands the stack out as a list of values
+                stack = VmStack.serialize(stack)
+            builder.store_cell(stack)
         else:
             builder.store_bit_int(0)
 
-        builder.store_cell(VmSaveList.serialize(value.save))
+        save = getattr(value, 'save', None)
+        if isinstance(save, dict):  # deserialize() hands the saved registers out as {register: value slice}
+            save = HashMap(4, map_=dict(save), value_serializer=lambda src, dest: dest.store_slice(src)).serialize()
+        builder.store_cell(VmSaveList.serialize(save))
 
         if getattr(value, 'cp', None) is not None:  # cp = 0 is a value, not "nothing"
             builder.store_bit_int(1)
